@@ -180,6 +180,9 @@ func ruleR7_1(r *Run) {
 	if f == nil {
 		return
 	}
+	if !newVersionIntact(r, f) {
+		return
+	}
 	var branchParam *ssa.Parameter
 	for _, p := range f.Params {
 		if p.Name() == "branchname" || (isStringType(p.Type()) && branchParam == nil && p.Name() != "note") {
